@@ -43,7 +43,17 @@ def lp_families(tier, seed):
     for c in fam.fam_split()[::3 if not th else 1]:
         if c['coupling'] in ('none', 'storage_start_eq_end'):
             out.append(('split', c))
-    return out
+    out = [(tag, c) for tag, c in out if all(d == 1 for d in c['dt'])]      # the unit injection is a rate: one unit of volume only on unit steps
+    # magnitude of cost coefficients: the same portfolios with a back-up source priced at a "value of lost load" (never or rarely used)
+    big = []
+    for tag, c in out[::3 if not th else 1]:
+        if tag == 'split':
+            continue
+        d = copy.deepcopy(c)
+        n = sorted(d['nodes'])[0]
+        d['assets'].append(F.contract(d['T'], n, 0, 1, 100000))
+        big.append((tag + '_big_price', d))
+    return out + big
 
 
 def run(tier, seed):
